@@ -290,6 +290,7 @@ type vfWorld struct {
 	DSDims map[string][]uint64
 	GR     map[string]*GroupWriter
 	closed bool
+	resizeBuf map[string][]uint64 // one extent slice per dataset, reused by every resize op
 }
 
 var vfFileCounter int64
@@ -412,7 +413,18 @@ func (w *vfWorld) Apply(o vfOp) (err error, panicked bool) {
 		if ds == nil {
 			return fmt.Errorf("harness: no dataset handle %q", o.Path), false
 		}
-		e := ds.Resize(o.Dims)
+		// the caller's idiom of an append loop: one extent slice per dataset, changed in place and
+		// handed to every Resize (the handle must not depend on what the caller does with it)
+		if w.resizeBuf == nil {
+			w.resizeBuf = map[string][]uint64{}
+		}
+		buf := w.resizeBuf[o.Path]
+		if len(buf) != len(o.Dims) {
+			buf = make([]uint64, len(o.Dims))
+			w.resizeBuf[o.Path] = buf
+		}
+		copy(buf, o.Dims)
+		e := ds.Resize(buf)
 		if e == nil {
 			w.DSDims[o.Path] = append([]uint64{}, o.Dims...)
 		}
